@@ -1,7 +1,7 @@
 (* C19 -- non-vacuity: concrete inputs meet the hypotheses of the theorems. *)
 From Coq Require Import QArith Qcanon ZArith List Arith Bool PrimFloat Lia.
 From Verif.lib Require Import Bsp NpCore NpQ NpF.
-From Verif.C19 Require Import Model Proofs Proofs2 FloatProofs.
+From Verif.C19 Require Import Model Proofs Proofs2 Proofs4 Proofs5 FloatGridDefs FloatProofs.
 Import ListNotations.
 Open Scope Qc_scope.
 
@@ -39,9 +39,16 @@ Example ex_derivative : map this (derivative_coeffs ex_kv 2 (map (fun z => q z 1
                         = [8; 16; 32; 64; 128; 256; 512; 1024]%Q.
 Proof. vm_compute. reflexivity. Qed.
 
-(* the bounded float theorem is about a non-empty grid that contains [0,1] *)
-Example ex_grid : In (0%float, 1%float) grid /\ length grid = 16%nat.
-Proof. split; [left; reflexivity|reflexivity]. Qed.
+(* the bounded float theorem is about a non-empty grid that contains [0,1] and [0.1,0.7] *)
+Example ex_grid : In (0, 1)%Q grid_all /\ In (1 # 10, 7 # 10)%Q grid_all /\ length grid_all = 266%nat.
+Proof.
+  split; [|split; [|reflexivity]].
+  - change (0, 1)%Q with (nth 9 grid_all (0, 0)%Q). apply nth_In. rewrite grid_all_length. lia.
+  - change (1 # 10, 7 # 10)%Q with (nth 15 grid_all (0, 0)%Q). apply nth_In. rewrite grid_all_length. lia.
+Qed.
+Example ex_f_of_q : PrimFloat.eqb (f_of_q (1 # 10)) 0x1.999999999999ap-4%float = true
+                    /\ PrimFloat.eqb (f_of_q (-37 # 10)) (-0x1.d99999999999ap+1)%float = true.
+Proof. split; vm_compute; reflexivity. Qed.
 Example ex_float : length (mesh_f (make_knots_f 2 0 1 49 1)) = 50%nat
                    /\ length (mesh_f (make_knots_old_f 2 0 1 49 1)) = 51%nat.
 Proof. split; vm_compute; reflexivity. Qed.
@@ -60,4 +67,18 @@ Example ex_deriv_eval :
   length c = numdofs ex_kv 2 /\
   spline_ev (derivative_kv ex_kv) 1 (derivative_coeffs ex_kv 2 c) (q 3 8) = spline_dev ex_kv 2 c (q 3 8) /\
   this (spline_dev ex_kv 2 c (q 3 8)) = 48%Q.
+Proof. repeat split; vm_compute; reflexivity. Qed.
+
+(* make_knots_open_kv / make_knots_basis_properties: mult = 2 <= max 2 1, u = 3/8 in [0,1] *)
+Example ex_open_hyp : (2 <= Nat.max 2 1)%nat /\ q 0 1 <= q 3 8 /\ q 3 8 <= q 1 1.
+Proof. split; [cbn; lia|split; discriminate]. Qed.
+Example ex_basis : this (Nref ex_kv 2 3 (q 3 8)) = (1 # 2)%Q /\ single_ev ex_kv 2 3 (q 3 8) = Nref ex_kv 2 3 (q 3 8).
+Proof. split; vm_compute; reflexivity. Qed.
+(* greville_unisolvent_partial: an interior index exists (1 <= 4, 4 + 1 < 9) *)
+Example ex_sw : (1 <= 4)%nat /\ (4 + 1 < numdofs ex_kv 2)%nat /\ kn ex_kv 4 < nth 4 (greville ex_kv 2) 0.
+Proof. split; [lia|split; [vm_compute; lia|reflexivity]]. Qed.
+(* greville_p0 *)
+Definition ex_kv0 := make_knots 0 (q 0 1) (q 1 1) 4 1.
+Example ex_p0 : kv_valid ex_kv0 = true /\ numdofs ex_kv0 0 = 4%nat /\
+                map this (greville ex_kv0 0) = [1 # 8; 3 # 8; 5 # 8; 7 # 8]%Q.
 Proof. repeat split; vm_compute; reflexivity. Qed.
